@@ -46,6 +46,15 @@ def sandbox(tmp, lua_final_nl):
         g = cartio.make_game(cartio.memory((0, 0), {}), LINE['P1'] + b'\n' + LINE['P2'] + b'\n', None, 8)
         gfile.to_file(g, os.path.join(S, d, 'T.p8.png'))
     os.symlink(S, S + '_ln')          # the same directory reached through a symbolic link
+    # the same files below a PICO-8 carts folder (HOME is pointed at S/home while such a cart is loaded): the include root is
+    # then the carts folder, the targets are still found next to the cart
+    game_dir = os.path.join(S, 'home', '.lexaloffle', 'pico-8', 'carts', 'mygame')
+    os.makedirs(os.path.dirname(game_dir))
+    shutil.copytree(S, game_dir, ignore=shutil.ignore_patterns('home'))
+    for decoy in ('T.lua', 'sub/T.lua'):
+        dp = os.path.join(os.path.dirname(game_dir), decoy)
+        os.makedirs(os.path.dirname(dp), exist_ok=True)
+        open(dp, 'wb').write(b'decoy=1\n')       # what a loader that resolves against the carts folder itself would find
     _SB[key] = S
     return S
 
@@ -83,9 +92,14 @@ def _case(item):
                 want.append(LINE[e])
     # the ways a user can name the same cart file: absolute, through a symlinked directory, relative to the
     # working directory, with redundant components
-    how = (len(lines) * 7 + sum(len(l) for l in lines)) % 4
+    how = (len(lines) * 7 + sum(len(l) for l in lines)) % 5
     given = cart
     cwd = os.getcwd()
+    old_home = os.environ.get('HOME')
+    if how == 4:
+        given = os.path.join(S, 'home', '.lexaloffle', 'pico-8', 'carts', 'mygame', os.path.basename(cart))
+        shutil.copyfile(cart, given)
+        os.environ['HOME'] = os.path.join(S, 'home')
     if how == 1:
         given = os.path.join(S + '_ln', os.path.basename(cart))
     elif how == 2:
@@ -103,6 +117,11 @@ def _case(item):
         got, outcome = [], 'error:%s' % type(e).__name__
     finally:
         os.chdir(cwd)
+        if how == 4:
+            if old_home is None:
+                os.environ.pop('HOME', None)
+            else:
+                os.environ['HOME'] = old_home
     return want, got, outcome
 
 
